@@ -1957,7 +1957,7 @@ func c12R14(p *core.Prog, r *core.Report) {
 		return
 	}
 	pkgPath := modPath("internal/reghttp")
-	tname := hostT.Obj().Name()
+	tname := "clientHost" // the canonical name: IsNamed resolves a renamed type through its role
 	isTime := func(t types.Type) bool { return core.IsNamed(t, "time", "Time") }
 	n := 0
 	lab := labeler{}
